@@ -8,7 +8,7 @@
 (* method through the framing of an actual render, forced support also       *)
 (* through the instantiation gate).                                          *)
 (*                                                                         *)
-(*   trace = [fam, par, nc, geo, init, ev]                                   *)
+(*   trace = [fam, par, nc, dm, geo, init, ev]   (dm: derived-metaclass flags) *)
 (*   geo   = [cw, ch, rw, rh, ow, oh]: cell px, rendered cells, source px     *)
 (*   init  = override maps the history starts from (all unset for recorded   *)
 (*           histories; the spec state for replayed edges, see the driver)   *)
@@ -35,14 +35,14 @@ VARIABLES tid, l, S, Hc, Hi, verdict, at, vset
 vars == <<tid, l, S, Hc, Hi, verdict, at, vset>>
 
 Tr == Traces[tid]
-T == [par |-> Tr.par, nc |-> Tr.nc]
+T == [par |-> Tr.par, nc |-> Tr.nc, dm |-> Tr.dm]
 Fam == Tr.fam
 G == Tr.geo
 NE == Len(Tr.ev)
 
 WFTrace(tr) ==
   /\ tr.fam \in {"kitty", "iterm2"}
-  /\ WellFormedTree([par |-> tr.par, nc |-> tr.nc])
+  /\ WellFormedTree([par |-> tr.par, nc |-> tr.nc, dm |-> tr.dm])
   /\ \A set \in Settings : Len(tr.init[set]) = Len(tr.par)
   /\ WellFormedGeo(tr.geo)
 
@@ -107,6 +107,7 @@ Clause(e, S1, S2, Hc2, Hi2) ==
   ELSE IF ExplainedBy(e, S2, Hi2) THEN "instance-unset-writes-default"
   ELSE IF exp # "ok" THEN kind \o "rejected-operation-changed-state"
   ELSE IF op.k = "render" THEN kind \o "render-changed-state"
+  ELSE IF Global(op.set) /\ D # {} THEN kind \o op.k \o "-global-value-not-shared-by-all-classes-and-instances"
   ELSE IF x \in D THEN
     kind \o (IF op.k = "unset" THEN "unset-not-following-next-level" ELSE "set-not-effective")
   ELSE IF D \cap InheritsThrough(T, S1, op.set, x) # {} THEN
